@@ -173,6 +173,15 @@ func checkN(t *testing.T, n int) {
 		if util.VerifyMerklePath(string(pert), p, root) {
 			fail(t, n, i, "perturbed leaf verifies")
 		}
+		// digests that come from the tree itself are different leaf hashes too: the root and the nodes on the path
+		if util.VerifyMerklePath(root, p, root) || mt.VerifyPath(leaf(root), p) {
+			fail(t, n, i, "the root digest offered as the leaf verifies")
+		}
+		for _, nd := range p.Nodes {
+			if nd != ls[i] && util.VerifyMerklePath(nd, p, root) {
+				fail(t, n, i, "a node of the path offered as the leaf verifies")
+			}
+		}
 		// a foreign leaf is not found
 		if n == 1 || i == 0 {
 			fp := mt.GetPath(leaf(h("foreign")))
@@ -346,7 +355,7 @@ func TestObjectHistory(t *testing.T) {
 		var helds []held
 		var log []string
 		built, shrunk, heldAcross, loaded, refused := false, false, false, false, false
-		big, twins, loadedOver := false, false, false
+		big, twins, loadedOver, inPlace := false, false, false, false
 		twin := -1
 		var kept *keptExport
 		keptLoaded := false
@@ -358,6 +367,25 @@ func TestObjectHistory(t *testing.T) {
 			if gen.Chance(rt, 15, "nbig") {
 				n = gen.Pick(rt, bigSizes, "nb")
 				big = true
+			}
+			if built && gen.Chance(rt, 30, "inplace") {
+				// the caller keeps its leaf buffer, replaces some entries in place and computes the tree again
+				n = len(ls)
+				nls, nhs := mkLeaves(n, uint64(1000+step))
+				ls = append([]string(nil), ls...)
+				for j := gen.Uniform(rt, 1, 3, "nreplace"); j > 0; j-- {
+					i := gen.Uniform(rt, 0, n-1, "replace")
+					ls[i], hs[i] = nls[i], nhs[i]
+				}
+				mt.ComputeTree(hs)
+				twin = -1
+				inPlace = true
+				root = mt.GetRoot()
+				log = append(log, fmt.Sprintf("rebuild(%d, same buffer changed in place)", n))
+				if want := refRoot(ls); root != want {
+					rt.Fatalf("%v: GetRoot() = %s, reference root of the %d leaves just built is %s", log, root, n, want)
+				}
+				return
 			}
 			if built && n < len(ls) {
 				shrunk = true
@@ -393,6 +421,9 @@ func TestObjectHistory(t *testing.T) {
 			}
 			if hd.other != "" && util.VerifyMerklePath(hd.other, hd.p, hd.root) {
 				rt.Fatalf("%v: %s: the path of leaf %s verifies another leaf", log, when, hd.leaf[:8])
+			}
+			if hd.root != hd.leaf && util.VerifyMerklePath(hd.root, hd.p, hd.root) {
+				rt.Fatalf("%v: %s: the path of leaf %s verifies the root digest offered as a leaf", log, when, hd.leaf[:8])
 			}
 		}
 		build(0)
@@ -530,6 +561,9 @@ func TestObjectHistory(t *testing.T) {
 		}
 		if keptLoaded {
 			cls = append(cls, "export-kept-and-loaded-later")
+		}
+		if inPlace {
+			cls = append(cls, "rebuilt-from-the-same-buffer-changed-in-place")
 		}
 		ev.Case(fmt.Sprint(log), nt, cls...)
 		if nt && ev.WantSample() {
